@@ -212,7 +212,9 @@ def run(chk, prog):
         fn = M.methods[m_]
         evn = Evaluator(prog)
         r = evn.eval_fn(fn, M.module, M)
-        ok = is_t(r.ret, "loop") and r.ret[1] == P("masks") and r.ret[2] == P("mask") and r.ret[3] == ("bin", op, P("mask"), ("elem", P("masks")))
+        # a left fold mask op m1 op m2 ..: the generic loop term, or (for `|`) the accumulation term the for-loop spelling `acc |= m` gives
+        ok = (is_t(r.ret, "loop") and r.ret[1] == P("masks") and r.ret[2] == P("mask") and r.ret[3] == ("bin", op, P("mask"), ("elem", P("masks")))) \
+            or r.ret == ("bin", op, P("mask"), ("sumover", P("masks"), ("elem", P("masks"))))
         chk.require(ok, "MASK-TABLE", f"Mask.{m_}", "left fold", derived=show(r.ret)[:160], expected=f"reduce(a {op} b, masks, mask)", where=f"{M.module.rel}:{fn.lineno}")
     n = flag_tables(chk, prog)
     chk.explanation = "finite truth tables: concrete match arms vs traced arm of Mask.__or__/__xor__ (flag everywhere, chosen side where valid), index wrap-around, flag-only operations"
